@@ -205,7 +205,36 @@ def prop_recover(case):
         if worst > 1e-4 and res.cost <= 1e-24 * max(dnorm * dnorm, 1e-300):
             raise Discard("another parameter set reproduces the data exactly (not identifiable)")
         check(worst <= 1e-4 * max(1.0, sv[0] / sv[-1] / 10), "recover.returns_to_truth", lambda: f"max relative parameter error {worst:.3e} (cond J {sv[0]/sv[-1]:.1e}, cost {res.cost:.3e}, nfev {res.number_of_function_evaluations})")
-    return {"nontrivial": nontrivial(case), "tags": tags_of(case)}
+        # the same fit through an Optimizer object whose first run failed (an evaluation refused after a trial step was taken
+        # over): run again, it starts from the scheme's start values like a fresh optimizer and returns to the same parameters
+        from glotaran.optimization.optimizer import Optimizer
+
+        # (few evaluations: where the run ends then depends on where it started)
+        few = dict(maximum_number_function_evaluations=4, ftol=1e-14, xtol=1e-14, gtol=1e-14)
+        with expect_ok("recover.reused_optimizer.setup"):
+            res = optimize(_scheme(kinetic.build_model(fcase), kinetic.build_parameters(fcase, perturb=True), data, **few), verbose=False, raise_exception=True)
+            opt = Optimizer(_scheme(kinetic.build_model(fcase), kinetic.build_parameters(fcase, perturb=True), data, **few), verbose=False, raise_exception=False)
+        real, calls = opt.objective_function, [0]
+
+        def refusing(x):
+            v = real(x)
+            calls[0] += 1
+            if calls[0] == 3 + x0.size:
+                raise RuntimeError("injected: evaluation refused")
+            return v
+
+        opt.objective_function = refusing
+        with expect_ok("recover.reused_optimizer.failure_not_contained"):
+            opt.optimize()
+        del opt.objective_function
+        with expect_ok("recover.reused_optimizer.second_run"):
+            opt.optimize()
+            res2 = opt.create_result()
+        check(res2.success, "recover.reused_optimizer.not_successful", lambda: f"{res2.termination_reason}")
+        check(calls[0] >= 3 + x0.size, "recover.reused_optimizer.harness", lambda: f"fault not reached after {calls[0]} evaluations")
+        dev = max(abs(res2.optimized_parameters.get(p.label).value - res.optimized_parameters.get(p.label).value) / max(abs(p.value), 1e-3) for p in ftruth.all())
+        check(dev <= 1e-9, "recover.reused_optimizer_differs_from_fresh", lambda: f"max relative parameter difference {dev:.3e} between the run after a failed run and a fresh optimizer")
+    return {"nontrivial": nontrivial(case), "tags": tags_of(case) + (["reused_optimizer_after_failed_run"] if calls[0] >= 3 + x0.size else [])}
 
 
 PROPERTY = Property(
